@@ -57,7 +57,7 @@ pub fn run() -> i32 {
     let mut ctx = Ctx::new("C13", "exploration");
     let seed = ctx.seed;
     let nseeds = ctx.tier.pick(256u64, 4096);
-    ctx.rule = format!("full products: crypto_box_seed_keypair[_inplace] / KeyPair::from_seed (stack and Vec containers) for every seed length 0..=300 (1100 thorough) x 4 content classes against the construction SHA-512(seed)[..32] -> base-point multiplication evaluated with libsodium primitives (and libsodium's own crypto_box_seed_keypair for 32-byte seeds); crypto_kx_seed_keypair, crypto_sign_seed_keypair, SigningKeyPair::from_seed/from_secret_key for the 5-member value alphabet + {} seeded seeds; KeyPair::from_secret_key for secrets incl. unclamped patterns; PwHash::derive_keypair at minimal cost x 4 passwords x both algorithms x 5 Config hash/salt-length settings; Ed25519->X25519 conversion of every generated signing pair: both halves == libsodium and base(x_sk) == x_pk; non-trivial = case executed in both implementations", nseeds);
+    ctx.rule = format!("full products: crypto_box_seed_keypair[_inplace] / KeyPair::from_seed (stack and Vec containers) for every seed length 0..=300 (1100 thorough) x 4 content classes against the construction SHA-512(seed)[..32] -> base-point multiplication evaluated with libsodium primitives (and libsodium's own crypto_box_seed_keypair for 32-byte seeds); crypto_kx_seed_keypair, crypto_sign_seed_keypair, SigningKeyPair::from_seed/from_secret_key for the 5-member value alphabet + {} seeded seeds; KeyPair::from_secret_key for secrets incl. unclamped patterns; PwHash::derive_keypair at minimal cost x 4 passwords x both algorithms x 5 Config hash/salt-length settings; Ed25519->X25519 conversion of every generated signing pair and of a family of 2^16 (thorough 2^20) honest pairs from counter seeds: both halves == libsodium and base(x_sk) == x_pk; non-trivial = case executed in both implementations", nseeds);
     ctx.assume("dishonest Ed25519 public keys (small-order / non-canonical) are outside this property's quantifier; libsodium refuses them and dryoc does not — recorded as an observation, never alarmed");
 
     // box seeds of every length
@@ -114,6 +114,23 @@ pub fn run() -> i32 {
             let o2: SigningKeyPair<SB<32>, SB<64>> = SigningKeyPair::from_secret_key(SB::<64>::from(&wsk));
             let o3: SigningKeyPair<Vec<u8>, Vec<u8>> = SigningKeyPair::from_seed(&s.to_vec());
             v.push(("sign-seed", spk == wpk && ssk == wsk && o.public_key.as_slice() == &wpk[..] && o.secret_key.as_slice() == &wsk[..] && o2 == o && o3.public_key == wpk && o3.secret_key == wsk));
+            // a secret key whose public half is stale / missing: the pair that comes back must be
+            // the one libsodium's construction defines for the seed half (pk = base point multiple,
+            // sk = seed || pk), i.e. a pair whose signatures verify under its own public key
+            for (what, tail) in [("zero public half", [0u8; 32]), ("stale public half", sodium::sign_seed_keypair(&[0x42u8; 32]).0), ("inverted public half", { let mut t = wpk; t.iter_mut().for_each(|b| *b = !*b); t })] {
+                let mut bad = wsk;
+                bad[32..].copy_from_slice(&tail);
+                let o4: SigningKeyPair<SB<32>, SB<64>> = SigningKeyPair::from_secret_key(SB::<64>::from(&bad));
+                let o5: SigningKeyPair<Vec<u8>, Vec<u8>> = SigningKeyPair::from_secret_key(bad.to_vec());
+                let msg = b"signed with a recomputed pair";
+                let sm: dryoc::sign::SignedMessage<SB<64>, Vec<u8>> = o4.sign(msg.to_vec()).unwrap();
+                let (sg, _) = sm.into_parts();
+                let sg: [u8; 64] = sg.as_slice().try_into().unwrap();
+                let pk4: [u8; 32] = o4.public_key.as_slice().try_into().unwrap();
+                let ok = pk4 == wpk && o5.public_key == wpk && o4.secret_key.as_slice()[..32] == s[..] && sodium::sign_verify_detached(&sg, msg, &pk4);
+                let _ = what;
+                v.push(("sign-from-inconsistent-secret-key", ok));
+            }
             // public key from secret key
             let k: KeyPair<SB<32>, SB<32>> = KeyPair::from_secret_key(SB::<32>::from(s));
             let kv: KeyPair<Vec<u8>, Vec<u8>> = KeyPair::from_secret_key(s.to_vec());
@@ -145,6 +162,50 @@ pub fn run() -> i32 {
         }
     });
     ctx.absorb("seed32", st);
+
+    // Ed25519 -> X25519 conversion over a large family of honestly generated pairs (counter
+    // seeds): enough keys that every byte position of the public key takes every value, so an
+    // encoding-dependent refusal or mis-decoding of honest keys shows up
+    {
+        let nkeys: u32 = ctx.tier.pick(1u32 << 16, 1u32 << 20);
+        let chunks: Vec<u32> = (0..nkeys / 1024).collect();
+        let cover = std::sync::Mutex::new(vec![[false; 256]; 32]);
+        let st = par_units(&chunks, |&c, st| {
+            let mut seen = vec![[false; 256]; 32];
+            for i in 0..1024u32 {
+                let n = c * 1024 + i;
+                let mut sd = [0u8; 32];
+                sd[..4].copy_from_slice(&n.to_le_bytes());
+                sd[4..12].copy_from_slice(&seed.to_le_bytes());
+                let (wpk, wsk) = sodium::sign_seed_keypair(&sd);
+                for (p, b) in wpk.iter().enumerate() {
+                    seen[p][*b as usize] = true;
+                }
+                let r = guarded(AssertUnwindSafe(|| {
+                    let mut xpk = [0u8; 32];
+                    let mut xsk = [0u8; 32];
+                    let rpk = crypto_sign_ed25519_pk_to_curve25519(&mut xpk, &wpk);
+                    crypto_sign_ed25519_sk_to_curve25519(&mut xsk, &wsk);
+                    rpk.is_ok() && Some(xpk) == sodium::ed_pk_to_curve(&wpk) && xsk == sodium::ed_sk_to_curve(&wsk) && sodium::scalarmult_base(&xsk) == xpk
+                }));
+                let ok = r == Ok(true);
+                st.eval(&("ed-to-x-honest", n), true, if ok { "ed-to-x==libsodium" } else { "ed-to-x-differs" });
+                if !ok {
+                    fail(st, "ed-to-x", "honest-key", format!("honest Ed25519 pair of seed {} (public key {}): conversion refused or differs from libsodium: {:?}", hx(&sd), hx(&wpk), r), json!({"kind": "seed32", "seed": hx(&sd)}));
+                }
+            }
+            let mut g = cover.lock().unwrap();
+            for p in 0..32 {
+                for b in 0..256 {
+                    g[p][b] |= seen[p][b];
+                }
+            }
+        });
+        let g = cover.lock().unwrap();
+        let missing: usize = (0..32).map(|p| (0..256).filter(|&b| !g[p][b] && !(p == 31 && false)).count()).sum();
+        ctx.note("honest_key_family", json!({"keys": nkeys, "public_key_byte_values_never_seen": missing, "note": "(byte position, value) pairs of the public key never taken by any key of the family; byte 31 carries the sign bit so all 256 values occur there too"}));
+        ctx.absorb("ed-to-x-honest-family", st);
+    }
 
     // password-derived key pairs
     let mut st = Stats::new();
